@@ -4,7 +4,8 @@
 //
 // One line per case: `life <consumer> <script> <cluster table>\t<items> | <flags>`
 //
-//	consumer: i = Finish at once, r = retain everything (never Finish), k<N> = Finish N items late
+//	consumer: i = Finish at once, r = retain everything (never Finish), k<N> = Finish N items late,
+//	          s<N> = Finish at once but sleep N ms before every receive
 //	script:   comma separated: d<hex> = a Read returns these bytes, p = the reader sleeps 40 ms first,
 //	          c = Close() is called (from inside Read, i.e. while the parser is blocked in it),
 //	          last element E (io.EOF) or R (another error)
@@ -309,12 +310,16 @@ func runOnce(s script, consumer string) string {
 	p := ansi.NewParser(rd)
 	rd.p = p
 	close(rd.ready)
-	lag := -1 // -1: finish at once; 0: never; n>0: finish n items late
+	lag := -1                // -1: finish at once; 0: never; n>0: finish n items late
+	slow := time.Duration(0) // s<N>: sleep N ms before every receive (the parser and its timer callback block in emit)
 	switch {
 	case consumer == "r":
 		lag = 0
 	case strings.HasPrefix(consumer, "k"):
 		lag, _ = strconv.Atoi(consumer[1:])
+	case strings.HasPrefix(consumer, "s"):
+		ms, _ := strconv.Atoi(consumer[1:])
+		slow = time.Duration(ms) * time.Millisecond
 	}
 	var toks []string
 	var retained []held
@@ -325,6 +330,9 @@ func runOnce(s script, consumer string) string {
 	closed := false
 loop:
 	for {
+		if slow > 0 {
+			time.Sleep(slow)
+		}
 		select {
 		case seq, ok := <-p.Next():
 			if !ok {
@@ -741,6 +749,20 @@ func runC08(r *hx.Run) error {
 			}
 			timed = append(timed, kase{s: script{evs: sh, end: end}, consumer: consumers[(i+rep)%len(consumers)], kind: "esc-timing"})
 		}
+	}
+	// round 3: a slow consumer (25 ms before every receive; the channel holds 2 items): the main goroutine
+	// blocks in emit inside anywhere, and the timer callback of a lone ESC blocks in emit(C0 0x1B) HOLDING the
+	// mutex while the next read returns (Props.C08FineChan.fchan_blocked_callback_holds_mutex) — same items
+	slowShapes := append([][]ev{
+		{d("ab\x1b"), p, d("[A")}, {d("ab\x1b"), p, d("c\x1b"), p}, {d("abc\x1b]0;t\x1b"), p, d("\x1b\\z")}, {d("ab\x1b"), p},
+		{d("ab\x1b[A")}, {d("ab\x1b]0;t\x1b"), d("\\cd")}, {d("abc\x1bP1$rxy\x18de")},
+	}, shapes...)
+	for i, sh := range slowShapes {
+		end := byte('E')
+		if i%3 == 0 {
+			end = 'R'
+		}
+		timed = append(timed, kase{s: script{evs: sh, end: end}, consumer: "s25", kind: "esc-timing-slow-consumer"})
 	}
 	nRand := 60
 	if r.Thorough {
